@@ -9,7 +9,7 @@ from __future__ import annotations
 
 import ast
 
-from ..astutil import body_always_raises, calls_in, dotted, enclosing_stmt, is_within, src, walk_local
+from ..astutil import ancestors, body_always_raises, calls_in, dotted, enclosing_stmt, is_within, src, walk_local
 from ..cfg import cfg_of
 from ..loader import AnalysisError
 from ..terms import Evaluator, alts, backend_method, contains, find, show, walk
@@ -372,6 +372,24 @@ def r4_everything_deleted(ctx):
             )
 
 
+def r4b_listing_examined_completely(ctx):
+    """the listing loops of clean and delete_snapshots run to exhaustion: an early `break` / `return` inside the loop
+    leaves every object listed later unexamined (orphans survive, keep sets are incomplete)"""
+    corpus = ctx.corpus
+    fn, loop, var, adds = _clean_roles(corpus)
+    roles = DeleteRoles(corpus)
+    for f, l, what in ((fn, loop, 'clean: chunk listing'), (roles.fn, roles.loop, 'delete_snapshots: snapshot loading')):
+        exits = [n for n in walk_local(l) if isinstance(n, (ast.Break, ast.Return)) and not any(isinstance(a, (ast.For, ast.AsyncFor, ast.While)) and a is not l and any(x is a for x in ast.walk(l)) for a in ancestors(n))]
+        ctx.check(
+            not exits,
+            'C08.R4',
+            f'{func_label(f)}|listing-loop-runs-to-exhaustion',
+            loc(f, exits[0]) if exits else loc(f, l),
+            f'{what}: the loop has no early exit - every listed object is examined',
+            f'{what}: the loop can stop early (`{src(enclosing_stmt(exits[0]), 50) if exits else ""}`): objects listed after that point are never examined - unreferenced chunks stay behind / the keep set is incomplete',
+        )
+
+
 def r5_errors_propagate(ctx):
     shared.no_swallowed_backend_errors(ctx, 'C08.R5')
     shared.gathers_propagate(ctx, 'C08.R5')
@@ -383,9 +401,18 @@ def run(ctx):
     from .c14 import r5_no_stale_key_state
 
     r5_no_stale_key_state(Relabel(ctx, 'C08.R6'))
+    from .c13 import r4_idempotent_delete
+
+    # "deleted" means gone for every later listing / existence test on every backend
+    r4_idempotent_delete(Relabel(ctx, 'C08.R7'))
     r3_prefix(Relabel(ctx, 'C08.R1'))
     r1_confinement(ctx)
     r2_referenced_guard(ctx)
     r3_tag_relation(ctx)
     r4_everything_deleted(ctx)
+    r4b_listing_examined_completely(ctx)
+    from .shared import stale_loop_variables
+
+    _gc = [ctx.corpus.func('repository', 'Repository.clean'), DeleteRoles(ctx.corpus).fn]
+    stale_loop_variables(ctx, 'C08.R2', _gc + [n for g in _gc for n in g.all_nested()], 'reference / keep set')
     r5_errors_propagate(ctx)
